@@ -177,6 +177,47 @@ def replay_case(arg):
             if any(not np.array_equal(c_, c0) for c_, c0 in zip(callers, callers0)):
                 out.append((site, i + 1, ["caller-buffer-aliased"], {"construction": form}))
                 return out
+    out += wide_variants(ra, hist, trail)
+    return out
+
+
+def wide_variants(ra, hist, trail):
+    """single-operation histories once more on a NARROW array (int16) with a WIDE operand (numpy int64 scalar / int64
+    rows whose values do not fit 16 bits).  A list of int16 rows combined with an int64 operand gives exact int64
+    results (numpy's promotion), and appended rows keep their values; the expectation is the emitted one, shifted by
+    what the wider operand adds (the operators are linear in the operand)."""
+    out = []
+    if len(hist) != 1:
+        return out
+    op, init = hist[0], trail[0]["rows"]
+    name = op["op"]
+    try:
+        a = ra.RaggedArray([np.array(r, dtype=np.int16) for r in init])
+        if name == "binscalar" and op["o"] in ("add", "sub", "mul"):
+            k, big = op["k"], np.int64(op["k"] * 3000)
+            r = getattr(a, PYOP[op["o"]])(big)
+            got = [[int(v) for v in row] for row in r]
+            base = trail[1]["res"]["v"]
+            if op["o"] == "mul":
+                exp = [[v * 3000 for v in row] for row in base]
+            elif op["o"] == "add":
+                exp = [[v + 2999 * k for v in row] for row in base]
+            else:
+                exp = [[v - 2999 * k for v in row] for row in base]
+            if got != exp:
+                out.append(("binscalar/%s/int16-array-with-int64-scalar" % op["o"], 1, ["operator-result"],
+                            {"got": got, "expected": exp, "operand": int(big)}))
+            if _rows(a) != init:
+                out.append(("binscalar/%s/int16-array-with-int64-scalar" % op["o"], 1, ["operand-modified"], None))
+        elif name == "append":
+            vals = [np.array(v, dtype=np.int64) + 40000 for v in op["vals"]]
+            a.append(ra.RaggedArray(vals) if op["asRA"] else vals)
+            exp = [list(r) for r in init] + [[int(x) for x in v] for v in vals]
+            bad = observe(ra, a, exp)
+            if bad:
+                out.append(("append/int16-array-with-int64-rows", 1, bad, {"expected": exp, "iteration": _safe_rows(a)}))
+    except Exception as ex:
+        out.append(("%s/narrow-array-wide-operand" % name, 1, ["raises-%s" % type(ex).__name__], "%s: %s" % (type(ex).__name__, str(ex)[:160])))
     return out
 
 
